@@ -67,6 +67,8 @@ func ErrKind(err error) string {
 		return "badMID"
 	case strings.HasPrefix(err.Error(), "invalid Type"):
 		return "badType"
+	case strings.HasPrefix(err.Error(), "invalid Code"):
+		return "badCode"
 	}
 	return "other"
 }
@@ -79,7 +81,7 @@ func ParseMsg(f []string) (message.Message, []string, error) {
 	}
 	typ, e1 := strconv.ParseInt(f[0], 10, 16)
 	mid, e2 := strconv.ParseInt(f[1], 10, 32)
-	code, e3 := strconv.ParseUint(f[2], 10, 8)
+	code, e3 := strconv.ParseUint(f[2], 10, 16)
 	tok, e4 := lp.ParseHex(f[3])
 	pay, e5 := lp.ParseHex(f[4])
 	k, e6 := strconv.Atoi(f[5])
@@ -125,7 +127,7 @@ func FmtMsg(coder string, m *message.Message) string {
 	} else {
 		fmt.Fprintf(&b, "%d %d", m.Type, m.MessageID)
 	}
-	fmt.Fprintf(&b, " %d %s %s %d", uint8(m.Code), lp.Hex(m.Token), lp.Hex(m.Payload), len(m.Options))
+	fmt.Fprintf(&b, " %d %s %s %d", uint16(m.Code), lp.Hex(m.Token), lp.Hex(m.Payload), len(m.Options))
 	for _, o := range m.Options {
 		fmt.Fprintf(&b, " %d:%s", o.ID, lp.Hex(o.Value))
 	}
